@@ -265,6 +265,59 @@ FLEET['T1'] = dict(
     values=['node', 'pnode'],
 )
 
+
+# overlapping-prefix terms: the generated lexer must look ahead and FALL BACK to a shorter match
+# (1. -> num '.' ;  <<x -> '<' '<' id ;  ..a -> '.' '.' id)
+FLEET['G10'] = dict(
+    terms=[
+        ('num', T('regex', '[0-9]+(\\.[0-9]+)?', 'num', typed=True)),
+        ('dot', T('char', '.')),
+        ('dots', T('string', '...')),
+        ('lt', T('char', '<')),
+        ('shl', T('string', '<<=')),
+        ('id', T('regex', '[a-z]+', 'id')),
+        ('abc', T('string', 'a-b-c')),
+        ('minus', T('char', '-')),
+    ],
+    nterms=['list', 'item'],
+    root='list',
+    rules=[
+        ('item', ['num'], 'plain'),
+        ('list', [], 'plain'),
+        ('item', ['dot', 'id'], 'plain'),
+        ('item', ['dots'], 'plain'),
+        ('list', ['list', 'item'], 'plain'),
+        ('item', ['lt', 'num'], 'plain'),
+        ('item', ['shl', 'id'], 'ctx'),
+        ('item', ['id'], 'plain'),
+        ('item', ['abc'], 'plain'),
+        ('item', ['minus', 'num'], 'plain'),
+    ],
+    values=['node', 'mnode'],
+)
+
+# error symbol at the END of a rule: end of input is actionable right after the error symbol was shifted
+FLEET['G11'] = dict(
+    terms=[
+        ('x', T('char', 'x')),
+        ('semi', T('char', ';')),
+        ('y', T('char', 'y')),
+        ('lp', T('char', '(')),
+        ('rp', T('char', ')')),
+    ],
+    nterms=['root', 'list', 'stmt'],
+    root='root',
+    rules=[
+        ('stmt', ['x', 'semi'], 'plain'),
+        ('root', ['list'], 'default'),
+        ('stmt', ['error'], 'plain'),
+        ('list', [], 'plain'),
+        ('stmt', ['lp', 'list', 'rp'], 'plain'),
+        ('list', ['list', 'stmt'], 'plain'),
+    ],
+    values=['node', 'mnode', 'pnode'],
+)
+
 # standalone regex matchers (regex::expr<P>)
 REGEXES = {
     'R1': 'ab*c',
